@@ -1759,6 +1759,57 @@ class Evaluator(object):
                         return fill
                     return [build(ds[1:]) for _ in range(ds[0])]
                 return Mat(build(dims), dims)
+        if short in ('zeros_like', 'ones_like', 'empty_like', 'full_like') and a and isinstance(a[0], Mat) and 'dtype' not in kwargs and len(a) <= (2 if short == 'full_like' else 1):
+            # same shape AND same element type as the operand: of an array handed in by the caller (plain symbols) that type is the caller's -
+            # integers stay integers, and an element store truncates
+            src_ = a[0]
+            fill_ = C(1) if short == 'ones_like' else (a[1] if short == 'full_like' and len(a) > 1 and isinstance(a[1], Rat) else C(0))
+            nonconst_ = [False]
+
+            def _look(x_):
+                if isinstance(x_, Rat) and not x_.is_const():
+                    nonconst_[0] = True
+                return x_
+            _mat_map(src_.data, _look)
+            caller_typed = integer_closed(src_) and nonconst_[0] and src_.origin in (None, 'literal', 'like-input')
+            self._uninit = getattr(self, '_uninit', 0) + 1
+            tag_ = self._uninit
+            ser_ = [0]
+
+            def _cell(x_):
+                if short == 'empty_like':
+                    ser_[0] += 1
+                    return alg.opaque('uninit', (C(getattr(node, 'lineno', 0)), C(tag_), C(ser_[0])))
+                return fill_
+            return Mat(_mat_map(src_.data, _cell), src_.shape, origin='like-input' if caller_typed else None)
+        if short == 'diag' and len(a) == 1:
+            # numpy.diag of a sequence of numbers: the diagonal matrix; of a square matrix: its diagonal
+            v_ = a[0]
+            items = None
+            if isinstance(v_, Tup) and all(isinstance(x, (Rat, CallV)) for x in v_.items):
+                items = [x.rat if isinstance(x, CallV) else x for x in v_.items]
+            elif isinstance(v_, Mat) and len(v_.shape) == 1:
+                items = list(v_.data)
+            if items is not None and 0 < len(items) <= 16:
+                n_ = len(items)
+                return Mat([[items[i] if i == j else C(0) for j in range(n_)] for i in range(n_)], [n_, n_], origin='literal' if isinstance(v_, Tup) else None)
+            if isinstance(v_, Mat) and len(v_.shape) == 2 and v_.shape[0] == v_.shape[1]:
+                return Mat([v_.data[i][i] for i in range(v_.shape[0])], [v_.shape[0]])
+        if short == 'isclose' and len(a) >= 2 and isinstance(a[0], Rat) and isinstance(a[1], Rat):
+            # numpy.isclose / math.isclose of two numbers IS an ordering test: |a - b| <= atol + rtol |b| with numpy's defaults atol = 1e-8,
+            # rtol = 1e-5 (math.isclose: rel_tol = 1e-9 of the larger magnitude, abs_tol = 0).  A branch on it is a tolerance band, not the
+            # equality its name suggests
+            from fractions import Fraction as _F
+            is_np = getattr(node.func, 'value', None) is not None and getattr(node.func.value, 'id', '') in ('np', 'numpy')
+            rt = kwargs.get('rtol', kwargs.get('rel_tol'))
+            at = kwargs.get('atol', kwargs.get('abs_tol'))
+            if len(a) > 2:
+                rt = a[2]
+            if len(a) > 3:
+                at = a[3]
+            rt = rt if isinstance(rt, Rat) else C(_F(1, 10 ** 5) if is_np else _F(1, 10 ** 9))
+            at = at if isinstance(at, Rat) else C(_F(1, 10 ** 8) if is_np else 0)
+            return self.compare(ast.LtE(), alg.fabs(a[0] - a[1]), at + rt * alg.fabs(a[1]), node)
         if short == 'pad' and len(a) >= 2 and isinstance(a[0], Mat) and len(a[0].shape) == 2 and isinstance(a[1], Tup) and not [k_ for k_ in kwargs if k_ not in ('mode', 'constant_values')]:
             # numpy.pad(m, ((top, bottom), (left, right))) with the default constant 0: the result has the ELEMENT TYPE OF m
             w_ = []
@@ -2124,6 +2175,9 @@ def integer_closed(v):
 
 def input_typed(m):
     """a Mat whose dtype is decided by the caller's values: every element integer-closed, at least one of them not a constant"""
+    if isinstance(m, Mat) and m.origin == 'like-input':
+        # numpy.zeros_like(<the caller's array>): the element type is the caller's
+        return True
     if not isinstance(m, Mat) or m.origin != 'literal' or not integer_closed(m):
         return False
     some = [False]
